@@ -306,7 +306,11 @@ func c13Timeout(id string, class int, payloadKind int, seed int64) core.Scenario
 				if strings.HasPrefix(r, "panic") {
 					c.Violationf("late-reply:panics", rep, "a Reply produced after the timeout panicked inside the actor's effect: %s", r)
 				} else if r == "blocked" {
-					c.Violationf("late-reply:blocks", rep, "a Reply produced after the timeout blocks the actor forever")
+					if quiet, _ := core.QuietNow(); quiet {
+						c.Violationf("late-reply:blocks", rep, "a Reply produced after the timeout blocks the actor forever")
+					} else {
+						c.Inconclusive("late Reply still in progress after 10 s in " + id)
+					}
 				}
 			case <-time.After(30 * time.Second):
 				c.Inconclusive("the actor never reported the outcome of its late Reply in " + id)
@@ -389,7 +393,11 @@ func c13BusyActor(id string, capacity int, seed int64) core.Scenario {
 		select {
 		case r = <-out:
 		case <-time.After(30 * time.Second):
-			c.Violationf("busy-actor:asker-stuck", rep, "AskOnceWithTimeout(3ms) towards a busy actor never returned")
+			if quiet, _ := core.QuietNow(); quiet {
+				c.Violationf("busy-actor:asker-stuck", rep, "AskOnceWithTimeout(3ms) towards a busy actor never returned")
+			} else {
+				c.Inconclusive("busy-actor asker still in progress after 30 s")
+			}
 			return
 		}
 		if !((r.err == nil && r.v == "answer") || (r.err == fpgo.ErrActorAskTimeout && r.v == "")) {
@@ -401,7 +409,11 @@ func c13BusyActor(id string, capacity int, seed int64) core.Scenario {
 			if strings.HasPrefix(rr, "panic") {
 				c.Violationf("late-reply:panics", rep, "the reply to a request that had been queued behind a busy actor panicked: %s", rr)
 			} else if rr == "blocked" {
-				c.Violationf("late-reply:blocks", rep, "the reply to a request whose asker timed out while it was queued behind a busy actor blocks the actor forever (asker saw (%q, %v))", r.v, r.err)
+				if quiet, _ := core.QuietNow(); quiet {
+					c.Violationf("late-reply:blocks", rep, "the reply to a request whose asker timed out while it was queued behind a busy actor blocks the actor forever (asker saw (%q, %v))", r.v, r.err)
+				} else {
+					c.Inconclusive("reply to a stale request still in progress after 10 s in " + id)
+				}
 			}
 		case <-time.After(30 * time.Second):
 			c.Inconclusive("no reply outcome in " + id)
@@ -466,8 +478,132 @@ func c13NearThenLong(id string, rounds int, seed int64) core.Scenario {
 	}}
 }
 
+// an ask object prepared long before it is sent: the timeout counts from the call, not from the construction
+func c13PreparedAsk(id string, seed int64) core.Scenario {
+	return core.Scenario{ID: id, Class: "Ask.timeout", Run: func(c *core.Ctx) {
+		c.Eval(1)
+		c.Distinct(id)
+		type pAsk = fpgo.AskDef[interface{}, string]
+		actor := fpgo.Actor.New(func(self *fpgo.ActorDef[interface{}], m interface{}) {
+			if a, ok := m.(*pAsk); ok {
+				a.Reply("prompt")
+			}
+		})
+		defer actor.Close()
+		const timeout = 3 * time.Second
+		// three independent attempts: a single late answer proves nothing on a loaded machine
+		failures := 0
+		var lastErr error
+		for attempt := 0; attempt < 3; attempt++ {
+			var ask *pAsk
+			if (seed+int64(attempt))%2 == 0 {
+				ask = fpgo.AskNewGenerics[interface{}, string]("prepared")
+			} else {
+				ask = fpgo.AskNewByOptionsGenerics[interface{}, string]("prepared", make(chan string, 1))
+			}
+			time.Sleep(timeout + 400*time.Millisecond) // the ask object is older than its timeout when it is finally sent
+			v, err := ask.AskOnceWithTimeout(actor, timeout)
+			if err == nil && v == "prompt" {
+				break
+			}
+			failures++
+			lastErr = err
+		}
+		if failures == 3 {
+			c.Violationf("timeout:in-time-reply-lost", map[string]any{"scenario": id, "class": "ask object built 3.4 s before AskOnceWithTimeout(3 s) is called, actor answers immediately"},
+				"an ask object constructed %v before it was sent, AskOnceWithTimeout(%v) towards an actor that answers immediately: 3 of 3 attempts failed, last error %v", timeout+400*time.Millisecond, timeout, lastErr)
+		}
+	}}
+}
+
+// scatter / gather from ONE goroutine: n AskChannel calls, then the answers are read in request order from an actor that
+// answers in arrival order. Requests of one sender arrive in the order they were made (C12), so nobody waits for anybody.
+func c13ScatterGather(id string, n, capacity int, seed int64) core.Scenario {
+	return core.Scenario{ID: id, Class: "Ask.correlation", Run: func(c *core.Ctx) {
+		c.Eval(int64(n))
+		c.Distinct(id)
+		type sAsk = fpgo.AskDef[interface{}, int]
+		var mu sync.Mutex
+		var arrival []int
+		eff := func(self *fpgo.ActorDef[interface{}], m interface{}) {
+			if a, ok := m.(*sAsk); ok {
+				k := a.Message.(int)
+				mu.Lock()
+				arrival = append(arrival, k)
+				mu.Unlock()
+				a.Reply(k * 10)
+			}
+		}
+		var actor *fpgo.ActorDef[interface{}]
+		if capacity == 0 {
+			actor = fpgo.Actor.New(eff)
+		} else {
+			actor = fpgo.Actor.NewByOptions(eff, make(chan interface{}, capacity), map[string]interface{}{})
+		}
+		done := make(chan struct{})
+		var got []int
+		go func() {
+			defer close(done)
+			for round := 0; round < 20; round++ {
+				var chs []chan int
+				for k := 1; k <= n; k++ {
+					chs = append(chs, fpgo.AskNewGenerics[interface{}, int](round*100+k).AskChannel(actor))
+				}
+				for _, ch := range chs {
+					got = append(got, <-ch)
+				}
+			}
+		}()
+		v, dump := core.AwaitOrStuck(done, 2*time.Second, 60*time.Second, func() int64 { mu.Lock(); defer mu.Unlock(); return int64(len(arrival)) })
+		rep := map[string]any{"scenario": id, "asks_in_flight": n, "mailbox_capacity": capacity}
+		if v == "stuck" {
+			mu.Lock()
+			arr := append([]int(nil), arrival...)
+			mu.Unlock()
+			if len(arr) > 24 {
+				arr = arr[len(arr)-24:]
+			}
+			c.Violationf("scatter-gather:stuck", map[string]any{"scenario": id, "goroutines": core.RepoGoroutineSummary(dump), "last_arrivals": fmt.Sprint(arr)},
+				"%d AskChannel calls from one goroutine, answers read in request order: the asker and the actor wait for each other (requests arrived as ...%v)", n, arr)
+			return
+		}
+		if v != "done" {
+			c.Inconclusive("watchdog in " + id)
+			return
+		}
+		for i, g := range got {
+			round, k := i/n, i%n+1
+			if g != (round*100+k)*10 {
+				c.Violationf("scatter-gather:wrong-answer", rep, "answer #%d of round %d is %d, want %d", k, round, g, (round*100+k)*10)
+				break
+			}
+		}
+		mu.Lock()
+		for i := 1; i < len(arrival); i++ {
+			if arrival[i] < arrival[i-1] {
+				c.Violationf("scatter-gather:requests-overtake", rep, "requests made by one goroutine in the order ...%d, %d... reached the actor as ...%d, %d...", arrival[i], arrival[i-1], arrival[i-1], arrival[i])
+				break
+			}
+		}
+		mu.Unlock()
+		actor.Close()
+	}}
+}
+
 func c13Scenarios(c *core.Ctx, race bool) []core.Scenario {
 	var out []core.Scenario
+	for i := 0; i < c.Pick(2, 6); i++ {
+		if race && i > 0 {
+			break
+		}
+		out = append(out, c13PreparedAsk(fmt.Sprintf("prepared-ask-%d-race%v", i, race), c.Seed+int64(i)))
+	}
+	for i := 0; i < c.Pick(12, 60); i++ {
+		// (the mailbox holds all requests of a round: with a smaller one the asker's synchronous Send itself waits for the
+		// actor, which waits for the asker to read an earlier answer - a deadlock of the usage, not of the library)
+		n := 2 + i%7
+		out = append(out, c13ScatterGather(fmt.Sprintf("scatter-gather-%d-race%v", i, race), n, n+[]int{0, 1, 8}[i%3], c.Seed+int64(i)))
+	}
 	for i := 0; i < c.Pick(4, 16); i++ {
 		out = append(out, c13NearThenLong(fmt.Sprintf("near-then-long-%d-race%v", i, race), c.Pick(300, 1500), c.Seed*71+int64(i)))
 	}
@@ -505,7 +641,7 @@ func init() {
 		Meta: func(c *core.Ctx) core.Meta {
 			return core.Meta{
 				Level:       "exploration",
-				Rule:        "correlation: 1..32 concurrent askers x 1..200 asks through AskOnce / AskOnceWithTimeout(60 s) / AskChannel; the reply is a pure function of the request payload and a per-request nonce, the actor replies inline, from helper goroutines in shuffled order, or in reversed batches, so every asker can verify that it received exactly its own answer; timeouts as logical classes: 'in time' = 60 s timeout + immediate reply (an error is a violation), 'never' = timeout in {5 ms, 0, -1 ns, -1 h, 1 ns, 300 us} and no reply (the call itself is under the stuck detector), 'after' = the actor replies only after AskOnceWithTimeout has RETURNED ErrActorAskTimeout (signalled by the harness) under recover with a 10 s blocked-detector, 'queued' = the request waits behind a busy actor (mailbox capacity 0..2) beyond the asker's 3 ms timeout and is answered afterwards, 'racing' = PRNG delays around a 200-600 us timeout and the asker parked at ask.timeout.fired so that the reply lands between the timer and the close; afterwards a fresh ask with a 60 s timeout must be served; the asks of the timeout classes are built by AskNewGenerics, AskNewByOptionsGenerics / NewByOptions with caller supplied unbuffered and 1-buffered reply channels; multi-step histories of 300 (thorough 1500) rounds {ask whose reply lands within +-100 us of its 150-350 us timeout, then an ask with a 60 s timeout answered immediately, which must not time out}; payload kinds int/string/struct/nil; repeated under -race. distinct_nontrivial = distinct scenarios",
+				Rule:        "correlation: 1..32 concurrent askers x 1..200 asks through AskOnce / AskOnceWithTimeout(60 s) / AskChannel; the reply is a pure function of the request payload and a per-request nonce, the actor replies inline, from helper goroutines in shuffled order, or in reversed batches, so every asker can verify that it received exactly its own answer; timeouts as logical classes: 'in time' = 60 s timeout + immediate reply (an error is a violation), 'never' = timeout in {5 ms, 0, -1 ns, -1 h, 1 ns, 300 us} and no reply (the call itself is under the stuck detector), 'after' = the actor replies only after AskOnceWithTimeout has RETURNED ErrActorAskTimeout (signalled by the harness) under recover with a 10 s blocked-detector, 'queued' = the request waits behind a busy actor (mailbox capacity 0..2) beyond the asker's 3 ms timeout and is answered afterwards, 'racing' = PRNG delays around a 200-600 us timeout and the asker parked at ask.timeout.fired so that the reply lands between the timer and the close; afterwards a fresh ask with a 60 s timeout must be served; the asks of the timeout classes are built by AskNewGenerics, AskNewByOptionsGenerics / NewByOptions with caller supplied unbuffered and 1-buffered reply channels; ask objects built 3.4 s before AskOnceWithTimeout(3 s) is called (3 attempts); scatter / gather of 2..8 AskChannel calls from one goroutine read in request order (stuck detector, arrival order); multi-step histories of 300 (thorough 1500) rounds {ask whose reply lands within +-100 us of its 150-350 us timeout, then an ask with a 60 s timeout answered immediately, which must not time out}; payload kinds int/string/struct/nil; repeated under -race. distinct_nontrivial = distinct scenarios",
 				Assumptions: []string{"a 60 s timeout is never hit by an immediately replying actor (safe direction only: a timeout error is a violation, finishing late is not)", "in the racing class either outcome (reply or timeout) is legal"},
 			}
 		},
